@@ -2,7 +2,7 @@
    [pieces t]: the leaves a program plays, in order, repetitions unrolled (Model.v); [duration]: Loop.duration.
    [tree_okb]: counts >= 0 and inner nodes carry no waveform. *)
 From Coq Require Import ZArith QArith Bool List.
-Require Import QV.C06.Model QV.C06.Spec QV.C06.Proofs_props.
+Require Import QV.C06.Model QV.C06.Spec QV.C06.Proofs_props QV.C06.Gen_sfg QV.C06.Proofs_sfg.
 Import ListNotations.
 Open Scope Z_scope.
 
@@ -84,3 +84,29 @@ Theorem C06_roll_constant_waveforms_preserves : forall mq q sr t t', (0 < q)%Z -
   roll_constant_waveforms mq q sr t = Ok t' -> same_play (pieces t') (pieces t) /\ (duration t' == duration t)%Q.
 Proof. exact roll_preserves. Qed.
 Print Assumptions C06_roll_constant_waveforms_preserves.
+
+(* ---- smallest_factor_ge.  [smallest_factor_ge_src] (Gen_sfg.v) is generated on every run from
+   qupulse/utils/numeric.py by translate/py2gallina_c06.py: the assert, the probe range
+   range(min_factor, min(min_factor + brute_force, n)), the test n % factor == 0 and the returned variable come from the
+   source text; the sympy fall-back of the for-else clause is the parameter [fb], constrained by [fallback_spec]
+   (= it returns the smallest factor >= m; compared with brute force by the correspondence cases CSfg). *)
+
+Theorem C06_sfg_src_eq_model : forall (fb : Z -> Z -> Z), fallback_spec fb ->
+  forall n m bf, 1 <= m -> smallest_factor_ge_src fb n m bf = smallest_factor_ge n m.
+Proof. exact sfg_src_eq_model. Qed.
+Print Assumptions C06_sfg_src_eq_model.
+
+(* the probe loop by itself: what it returns is the smallest factor >= m in the probed range, and if it finds nothing no
+   number of the probed range divides n (no contract on the fall-back needed) *)
+Theorem C06_sfg_probe_correct : forall (fb : Z -> Z -> Z) n m bf, 1 <= m -> m <= n ->
+  (exists k, smallest_factor_ge_src fb n m bf = Ok k /\
+             m <= k < Z.min (m + bf) n /\ n mod k = 0 /\ (forall j, m <= j < k -> n mod j <> 0))
+  \/ (smallest_factor_ge_src fb n m bf = Ok (fb n m) /\
+      forall j, m <= j < Z.min (m + bf) n -> n mod j <> 0).
+Proof. exact sfg_probe_correct. Qed.
+Print Assumptions C06_sfg_probe_correct.
+
+Theorem C06_sfg_model_correct : forall n m k, smallest_factor_ge n m = Ok k -> 1 <= m ->
+  m <= k <= n /\ n mod k = 0 /\ forall j, m <= j < k -> n mod j <> 0.
+Proof. exact sfg_model_correct. Qed.
+Print Assumptions C06_sfg_model_correct.
